@@ -17,7 +17,8 @@ Proof. reflexivity. Qed.
 Lemma source_switches :
   src_convert_separators_default = true /\ src_input_format_pushes_front = true /\
   src_input_format_disables_conversion = true /\ src_sep_from = (45, 46) /\ src_sep_to = 47 /\
-  src_max_date_len = 127 /\ src_written_date_format = [37; 89; 47; 37; 109; 47; 37; 100].
+  src_max_date_len = 127 /\ src_written_date_format = [37; 89; 47; 37; 109; 47; 37; 100] /\
+  src_format_cache_exact_match = true.
 Proof. repeat split. Qed.
 
 Definition I_md := [IDir 109; ILit 47; IDir 100].
